@@ -106,9 +106,12 @@ def name_tree(rng, shape, fancy=False):
         if fancy and rng.random() < 0.4:
             base = base[0] + rng.choice(NAME_CHARS_EXTRA) + base[1:] if rng.random() < 0.6 else base + rng.choice(['.x', '-b', '_1', ' sp', '/', '/z'])
         return base
+    casepairs = (not fancy) and (not oma) and rng.random() < 0.08        # species names that differ only in case: L1, l1, L2, l2 ...
     def rec(t):
         if not t[1]:
             lc[0] += 1
+            if casepairs:
+                return (('L%d' if lc[0] % 2 else 'l%d') % ((lc[0] + 1) // 2), ())
             return (nm('L', lc[0]) if fancy else ('SP%03d' % lc[0] if oma else 'L%d' % lc[0]), ())
         ic[0] += 1
         me = nm('I', ic[0]) if fancy else ('CL%03d' % ic[0] if (oma and rng.random() < 0.25) else 'I%d' % ic[0])   # some clades named like OMA codes
@@ -621,7 +624,7 @@ def make_dataset(rng, T=None, naming=None, nfam=None, P=None, maxleaves=8, int_i
     if nfam is None:
         nfam = rng.choice([1, 1, 2, 2, 3, 4, 6]) if rng.random() > 0.04 else 0      # (sometimes no family at all: singletons only)
     fam_no = 0
-    id_offset = rng.choice([0, 0, 1])
+    id_offset = rng.choice([-1, 0, 0, 1])            # (-1: the first family is called "0")
     idless_at = rng.randint(1, nfam) if (nfam and rng.random() < P.get('idless_top', 0.0)) else 0
     for _ in range(nfam):
         for _try in range(max_tries):
